@@ -122,6 +122,14 @@ CHECKS.update({
          "DESIGN.md section 3 C19"),
 })
 
+CHECKS.update({
+ "C20": ("exploration",
+         "Go race detector (-race build of the harness linking /repo) over a multi-goroutine stress workload, plus a determinism oracle: each operation's result under concurrency vs its result in the sequential pre-run of the same seeded scripts",
+         "G in {2,4,16,64} goroutines each own a UE context and run seeded scripts of NGAP build/encode/decode, NAS plain and protected encode/decode, key derivation, NEA/NIA and Milenage operations with GOMAXPROCS 2 and 16; race reports are read from GORACE log files and keyed by the innermost code-under-test frames of the two accesses; every result digest must equal the sequential run's; the evidence reports how many operation pairs actually overlapped (logical tickets).",
+         "Stress, not enumeration of interleavings; the race detector only sees executed code; reports without a frame of the code under test are treated as harness defects (inconclusive).",
+         "DESIGN.md section 3 C20"),
+})
+
 NOT_YET = {}
 
 def main():
